@@ -41,6 +41,49 @@ def vector_ro(rng, n, ed_start, explicit_start=(), explicit_end=()):
     return B.ro_doc('RO', 1, stories, ed_start=ed_start, pretty=rng.random() < 0.5)
 
 
+def callers_story_list(s):
+    """Story objects built by the caller: Story(tag, all_stories=<the caller's list or iterator>, prog_start_time=..).
+    What the caller does with its list afterwards does not change a story's offset, start or end."""
+    from xml.etree import ElementTree as ET
+    from datetime import datetime
+    from ..contracts import ref_story_table, feq
+    import mosromgr.moselements as me
+    for i in range(6):
+        if not s.mine(i):
+            continue
+        rng = s.rng('callers-list', i)
+        txt = vector_ro(rng, rng.randint(3, 6), '2020-01-01T12:30:00')
+        rc = ET.fromstring(txt).find('roCreate')
+        tags = [c for c in rc if c.tag == 'story']
+        want = ref_story_table(rc)['rows']
+        start0 = datetime(2020, 1, 1, 12, 30, 0)
+        for how in ('list-then-reversed', 'list-then-cleared', 'iterator', 'tuple'):
+            lst = list(tags)
+            arg = iter(lst) if how == 'iterator' else (tuple(lst) if how == 'tuple' else lst)
+            try:
+                objs = [me.Story(t, all_stories=(iter(list(tags)) if how == 'iterator' else arg), prog_start_time=start0) for t in tags]
+                if how == 'list-then-reversed':
+                    lst.reverse()
+                elif how == 'list-then-cleared':
+                    lst.clear()
+                got = [(o.offset, o.start_time, o.end_time) for o in objs]
+                got2 = [(o.offset, o.start_time, o.end_time) for o in objs]       # read twice
+                err = None
+            except Exception as e:
+                got = got2 = None
+                err = e
+            exp = [(r['offset'], r['start'], r['end']) for r in want]
+            ok = err is None and got == got2 and all(feq(g[0], w[0]) and g[1] == w[1] and g[2] == w[2] for g, w in zip(got, exp))
+            s.evaluations += 1
+            s.note_sig(('callers-story-list', how, ok))
+            s.hist['callers_story_list_cases'] += 1
+            if not ok:
+                s.custom_violation('accessor-disagrees-with-xml',
+                                   {'accessor': 'Story.offset / start_time / end_time of a Story built with all_stories=',
+                                    'how': how, 'exc': type(err).__name__ if err else None},
+                                   {'type': 'state', 'xml': txt, 'context': {'callers-list': how}}, status='callers-list')
+
+
 def header_placement(s):
     """roEdStart (and other header fields) need not stand in front of the stories: documents that carry it behind
     or between them, and the state two messages leave - a roMetadataReplace that adds roEdStart to a running order
@@ -87,6 +130,7 @@ def header_placement(s):
 
 
 def run(s):
+    K.hostile_callers(s)
     q = s.tier == 'quick'
     for k_, txt_ in enumerate(K.idless_states()):
         if s.mine(k_):
@@ -99,6 +143,7 @@ def run(s):
         s.hist['very_long_running_orders'] += 1
 
     header_placement(s)
+    callers_story_list(s)
 
     def on_pair_state(ro, cur, ev):
         acc.sweep(s, ro, cur, {'workload': 'pair-history'}, after=(ev or {}).get('msg_cls'))
